@@ -19,6 +19,8 @@ EXPLANATION = (
     'damping; the collective-matching rules S1/S2 are applied to the recompute branch; factor slots are rebound, never '
     'mutated in place (state dicts hand out aliases).  Bit-equality of a continued run is not decided.')
 
+NOT_DECIDED = 'bit-equality of a continued run'
+
 
 def run(ctx: Ctx) -> None:
     ctx.do(C.rule_tab_sd)
